@@ -11,8 +11,12 @@ fields of `Key`, before byte encoding) and value. Decided:
  m2  rollback after append restores the state: every row except the ConsumedOutPoint undo records equals the state before the append (cells consumed from earlier blocks, a
      cell created and consumed inside the block, typed and untyped cells) -- "rolling back the last appended block restores every answer".
 
-Outside: the byte encodings of keys and values (`From<Key> for Vec<u8>`, `parse_cell_value`; modelled as injective records), RocksDB iterators and prefix scans of the query
-functions (service.rs), custom filters, prune, the pool, the rich indexer (SQL).
+ m4  `IndexerHandle::get_transactions` (service.rs) on two index rows under the searched prefix: the scan runs over the transaction index of the searched script kind; the script
+     filter is looked up in the transaction index of the OTHER kind under the coordinates and cell type decoded from the row at hand; the answer is exactly the rows that are under the
+     prefix, have the exact key length in exact mode, pass the filter and lie in the block range, in scan order, at most `limit`; grouped answers join consecutive rows of one transaction.
+
+Outside: the byte encodings of keys and values (`From<Key> for Vec<u8>`, `parse_cell_value`; modelled as injective records), `build_query_options`, `get_cells` /
+`get_cells_capacity`, custom filters, prune, the pool, the rich indexer (SQL).
 """
 import os
 import re
@@ -395,20 +399,26 @@ def m3_two_blocks_then_two_rollbacks(S):
             S.prove(ctx, ob, f"{name}_after_{back}_rollbacks_rows_equal_the_state_{2 - back}_blocks_in", [], bool(not diff), extra={"note": str(diff)[:1500]})
 
 
-OBLIGATIONS = [m1_m2_append_then_rollback, m3_two_blocks_then_two_rollbacks]
+from obligations.indexer_query import m4_get_transactions     # noqa: E402  (query side: the `get_transactions` RPC over two index rows)
+
+OBLIGATIONS = [m1_m2_append_then_rollback, m3_two_blocks_then_two_rollbacks, m4_get_transactions]
 
 ENGINE = "M"
 LEVEL = "other"
 EXPLANATION = ("Indexer::append and Indexer::rollback are executed symbolically from their (generic) MIR on block scenarios; the store is an environment whose reads answer from the "
                "scenario state and whose batch operations are logged with structured keys; the logged rows are compared with the definition of the index and rollback is checked to "
-               "restore the state before the append.")
+               "restore the state before the append. The get_transactions query is executed on two symbolic index rows under the searched prefix (membership in the prefix, coordinates, "
+               "filter-row existence and transaction identity symbolic), the database iterator and point lookups as environment.")
 BOUNDS = {"scenarios": "5 block shapes (cellbase only; spending an untyped / typed cell of an earlier block; a cell created and spent inside the block; an input unknown to the index), <= 3 transactions, <= 2 inputs/outputs",
-          "outside": "byte encodings of keys and values, iterators/prefix scans of the query functions, custom filters, prune, pool, rich indexer"}
-ASSUMPTIONS = ["key and value byte encodings are injective (modelled as records)", "store reads see the committed state, batch writes become visible at commit", "no custom filter, no pool attached"]
+          "query": "get_transactions: 2 rows following the start key, limit 1 and 2, Lock/Type search, grouped/ungrouped, exact/prefix mode, script filter present, block range present or not",
+          "outside": "byte encodings of keys and values, build_query_options (start key / cursor), get_cells / get_cells_capacity, the other filters, custom filters, prune, pool, rich indexer"}
+ASSUMPTIONS = ["key and value byte encodings are injective (modelled as records)", "store reads see the committed state, batch writes become visible at commit", "no custom filter, no pool attached",
+               "query: the iterator yields the rows in key order; every transaction-index key ends with 17 bytes of coordinates (storage invariant established by append, m1); the request is within the request limit and does not time out"]
 TRUSTED = []
 LEVEL_TEXT = ("Decided on the real MIR of Indexer::append / rollback for bounded block scenarios: the rows written for a block are exactly the definition of the index (live cells by script, "
-              "transactions by script, consumed cells kept for undo), and rollback restores every row of the state before the append. Query-side filtering, byte encodings, prune and histories "
-              "longer than one append/rollback are outside and not claimed.")
-LEVEL_NOTE = "Partial claim (row-level append/rollback on bounded scenarios). Query functions, encodings, prune, RocksDB, SQL back end: outside."
+              "transactions by script, consumed cells kept for undo), and rollback restores every row of the state before the append. get_transactions answers exactly the scanned rows under the searched prefix that pass the script filter (looked up in the transaction index of the other script kind under "
+              "the row's own coordinates), the exact-length test and the block range, in scan order, grouped by transaction when asked, never more than the limit. The other query functions, "
+              "byte encodings, prune and histories longer than one append/rollback are outside and not claimed.")
+LEVEL_NOTE = "Partial claim (row-level append/rollback on bounded scenarios; get_transactions over two rows). get_cells / get_cells_capacity, encodings, cursors, prune, RocksDB, SQL back end: outside."
 TECHNIQUE = "symbolic execution of rustc MIR (scenario store as environment, logged batch operations), decided by the executor + SMT (cvc5 + z3) for path feasibility"
 DESIGN_REF = "DESIGN.md section 4 (C18)"
